@@ -24,8 +24,9 @@ Sub-checks
 
 Translator tie (regen_closures): gen/c04_py2coq.py regenerates, from the CURRENT source, the flag handling / argument forwarding /
   callee names of the six QOperation.func_calc_proj_* factories, the assembly rule of MProcess.calc_proj_ineq_constraint_with_var, the integer
-  layout of mprocess.convert_var_to_hss / convert_hss_to_var and the default flag of the eight static calc_proj_*_constraint_with_var;
-  coq/gen/C04_Equiv.v (14 theorems) is re-checked against that text on every run; if the tie breaks the `closures` sweep is widened.
+  layout of mprocess.convert_var_to_hss / convert_hss_to_var, the default flag of the eight static calc_proj_*_constraint_with_var and the
+  index / slice assignments (on a copy) of State / Gate.calc_proj_eq_constraint(_with_var);
+  coq/gen/C04_Equiv.v (16 theorems) is re-checked against that text on every run; if the tie breaks the `closures` sweep is widened.
 
 Tolerances (documented constants)
   TOL_EQ    1e-9 * max(1, scale)        model vs implementation, equality projections (rounding is ~1e-16*scale)
@@ -53,13 +54,16 @@ _SYS = {}
 
 
 def get_sys(key):
+    """key 'xx' : the composite system used everywhere; key 'xx#2' : an EQUAL but not identical instance (fresh ElementalSystems, same names and bases)"""
     if key in _SYS:
         return _SYS[key]
+    if key.endswith("#2"):
+        get_sys(key[:-2])
     from quara.objects.composite_system import CompositeSystem
     from quara.objects.elemental_system import ElementalSystem
     from quara.objects import matrix_basis as mb
     P, G = mb.get_normalized_pauli_basis, mb.get_normalized_gell_mann_basis
-    spec = {"1q": [P], "1t": [G], "2q": [P, P], "qt": [P, G], "tq": [G, P], "comp1q": [mb.get_comp_basis]}[key]
+    spec = {"1q": [P], "1t": [G], "2q": [P, P], "qt": [P, G], "tq": [G, P], "comp1q": [mb.get_comp_basis]}[key[:-2] if key.endswith("#2") else key]
     c = CompositeSystem([ElementalSystem(i, f()) for i, f in enumerate(spec)])
     _SYS[key] = c
     return c
@@ -102,20 +106,67 @@ def blocklen(T, d):
     return n if T in ("state", "povm") else n * n
 
 
-def build(T, c, x, m, flag, **extra):
-    """object of type T from the stacked parameter vector x (fresh arrays owned by the caller are NOT shared)"""
+OBJ_LAYOUTS = ["fortran", "transposed-view", "strided", "read-only"]
+
+
+def lay(a, layout):
+    """the same values in another memory layout (what a caller may legitimately hand to a constructor)"""
+    a = np.array(a, dtype=np.float64)
+    if layout is None:
+        return a.copy()
+    if layout == "read-only":
+        r = a.copy(); r.flags.writeable = False
+        return r
+    if a.ndim == 1:                                     # vectors: every non-trivial layout is a strided view
+        big = np.full(3 * a.size + 2, -3.5); big[1::3][:a.size] = a
+        return big[1::3][:a.size]
+    if layout == "fortran":
+        return np.asfortranarray(a)                      # owns its data, column-major
+    if layout == "transposed-view":
+        return np.ascontiguousarray(a.T).T               # a VIEW (base is not None), column-major strides
+    big = np.full((2 * a.shape[0] + 1, 2 * a.shape[1] + 1), -3.5); big[1::2, 1::2] = a
+    return big[1::2, 1::2]                               # strided in both axes
+
+
+def build(T, c, x, m, flag, layout=None, **extra):
+    """object of type T from the stacked parameter vector x (fresh arrays owned by the caller are NOT shared);
+    layout: memory layout of the arrays handed to the constructor (None = fresh C-contiguous copies)"""
     d = c.dim; n = d * d
     x = np.array(x, dtype=np.float64)
     kw = dict(is_physicality_required=False, on_para_eq_constraint=bool(flag))
     kw.update(extra)
     C = cls_of(T)
     if T == "state":
-        return C(c, x.copy(), **kw)
+        return C(c, lay(x, layout), **kw)
     if T == "povm":
-        return C(c, [x[i * n:(i + 1) * n].copy() for i in range(m)], **kw)
+        return C(c, [lay(x[i * n:(i + 1) * n], layout) for i in range(m)], **kw)
     if T == "gate":
-        return C(c, x.reshape(n, n).copy(), **kw)
-    return C(c, [x[i * n * n:(i + 1) * n * n].reshape(n, n).copy() for i in range(m)], **kw)
+        return C(c, lay(x.reshape(n, n), layout), **kw)
+    return C(c, [lay(x[i * n * n:(i + 1) * n * n].reshape(n, n), layout) for i in range(m)], **kw)
+
+
+def check_object_layouts(ctx, sub, site, T, c, x, m, flag, method, px, tol, case):
+    """the object-level projection of an object whose arrays were handed to the constructor in another memory layout (Fortran-ordered,
+    transposed view, strided view, read-only) must be the same point, must not raise and must leave the object's arrays untouched"""
+    for nm in OBJ_LAYOUTS:
+        try:
+            o = build(T, c, x, m, flag, layout=nm)
+            if maxabs(stacked(o), x) > 0:
+                ctx.violation(sub, cls_of(T).__name__ + ".__init__", "depends-on-memory-layout", "an object built from %s arrays does not hold the given values" % nm, dict(case, layout=nm))
+                continue
+            s0 = snap(arrays_of(T, o))
+            q = stacked(getattr(o, method)())
+        except Exception as e:
+            if is_truncate_error(e):
+                raise
+            ctx.violation(sub, site, "raises-on-layout:" + type(e).__name__, "%s raises %s (%s) for an object built from %s arrays" % (method, type(e).__name__, str(e)[:80], nm), dict(case, layout=nm))
+            continue
+        ctx.count(sub, key=None, nontrivial=False, label="object-layout/" + nm)
+        if not same(arrays_of(T, o), s0):
+            ctx.violation(sub, site, "mutates-argument", "%s modified the arrays of an object built from %s arrays" % (method, nm), dict(case, layout=nm))
+        if q.shape != px.shape or maxabs(q, px) > tol:
+            ctx.violation(sub, site, "depends-on-memory-layout",
+                          "%s of an object built from %s arrays differs by %.3e from the projection of the same values held C-contiguously" % (method, nm, maxabs(q, px)), dict(case, layout=nm))
 
 
 def stacked(obj):
@@ -184,6 +235,28 @@ def check_layouts(ctx, sub, site, fn, var0, out, what, case):
             ctx.violation(sub, site, "depends-on-memory-layout", "%s returns a different point (max change %.3e) for a %s of the same values" % (what, maxabs(o, out), nm), dict(case, layout=nm))
 
 
+def check_result_history(ctx, sub, site, fn, var0, out, allow_alias, what, case):
+    """the caller modifies the RETURNED array in place and calls again: the second call must return the same point and the argument
+    must still be untouched; the returned array must not share memory with the argument (unless allow_alias: State / Gate with the
+    constrained parametrisation return the argument itself - aliasing without mutation is C13's subject)"""
+    v = var0.copy()
+    o1 = fn(v)
+    if not isinstance(o1, np.ndarray):
+        return
+    if np.shares_memory(o1, v):
+        if not allow_alias:
+            ctx.violation(sub, site, "result-aliases-argument", "the array returned by %s shares memory with its argument: a caller that updates the result in place changes the argument" % what, case)
+        return
+    if o1.flags.writeable:
+        o1 += 1.0 + np.abs(o1)
+    o2 = np.array(fn(v), dtype=np.float64)
+    ctx.count(sub, key=None, nontrivial=False, label="result-history")
+    if not np.array_equal(v, var0):
+        ctx.violation(sub, site, "mutates-argument", "%s: the argument changed after the caller modified the returned array and called again" % what, case)
+    if o2.shape != np.shape(out) or not np.array_equal(o2, out):
+        ctx.violation(sub, site, "depends-on-call-history", "%s returns a different point (max change %.3e) after the caller modified the previously returned array in place" % (what, maxabs(o2, out)), case)
+
+
 # ---------------------------------------------------------------------------------- harness-side references (tripwires only)
 def ref_proj_eq(T, d, m, x):
     n = d * d
@@ -245,11 +318,11 @@ def rnd_vec(rng, k, scale, sparse=False):
 def gen_eq_cases(ctx, count):
     rng = ctx.rng
     cases = []
-    syss = ["1q", "1q", "1t", "2q"] if ctx.quick else ["1q", "1t", "2q", "qt", "tq"]
+    syss = ["1q", "1q", "1t", "2q", "qt"] if ctx.quick else ["1q", "1t", "2q", "qt", "tq"]
     for i in range(count):
         T = ["state", "povm", "gate", "mprocess"][i % 4]
         sk = rng.choice(syss)
-        if T in ("gate", "mprocess") and sk in ("qt", "tq") and rng.random() < 0.7:
+        if T in ("gate", "mprocess") and sk in ("qt", "tq") and (rng.random() < 0.7 or ctx.quick):      # quick: qubit x qutrit only for states / POVMs
             sk = rng.choice(["1t", "2q"])
         d = {"1q": 2, "1t": 3, "2q": 4, "qt": 6, "tq": 6}[sk]
         m = rng.randint(2, 5) if T in ("povm", "mprocess") else 1
@@ -426,6 +499,7 @@ def chk_eq(ctx, case):
     if not same(arrays_of(T, obj), s0):
         ctx.violation("eq", name + ".calc_proj_eq_constraint", "mutates-argument", "object-level equality projection modified the object's own arrays (%s)" % bucket, case)
     px = stacked(p)
+    check_object_layouts(ctx, "eq", name + ".calc_proj_eq_constraint", T, c, x, m, flag, "calc_proj_eq_constraint", px, 1e-12 * max(1.0, scale), case)
     st, mod = model_eq_obj(ctx, T, d, m, x)
     if st != "ok":
         ctx.violation("eq", name + ".calc_proj_eq_constraint", "model-mismatch", "model errs (%s) where the implementation returns (%s)" % (mod, bucket), case)
@@ -471,6 +545,8 @@ def chk_eq(ctx, case):
         ctx.count("eq", key=(T, case["sys"], m, f, case["seed"], "var"), nontrivial=nontriv, label="var/%s/%s" % (T, "T" if f else "F"))
         check_layouts(ctx, "eq", name + ".calc_proj_eq_constraint_with_var", lambda v, f=f: C.calc_proj_eq_constraint_with_var(c, v, on_para_eq_constraint=f),
                       var0, out, "calc_proj_eq_constraint_with_var(flag %s)" % f, dict(case, flag_var=f))
+        check_result_history(ctx, "eq", name + ".calc_proj_eq_constraint_with_var", lambda v, f=f: C.calc_proj_eq_constraint_with_var(c, v, on_para_eq_constraint=f),
+                             var0, out, f and T in ("state", "gate"), "calc_proj_eq_constraint_with_var(flag %s)" % f, dict(case, flag_var=f))
         mutated = not np.array_equal(var, var0)
         diag = ""
         if T == "mprocess" and d <= 3 and m <= 3:
@@ -648,6 +724,7 @@ def _ineq_body(ctx, case, atol, default_settings):
         px = stacked(p)
         if not same(arrays_of(T, obj), s0) or not np.array_equal(varg, var0):
             ctx.violation("ineq", name + ".calc_proj_ineq_constraint", "mutates-argument", "object-level inequality projection modified its operand (%s)" % bucket, case)
+        check_object_layouts(ctx, "ineq", name + ".calc_proj_ineq_constraint", T, c, x, m, flag, "calc_proj_ineq_constraint", px, tolv, case)
         Ys = operators(T, c, x, m); Xs = operators(T, c, px, m)
         spect = np.concatenate([np.linalg.eigvalsh(exact_herm(Y)) for Y in Ys])
         sn = max(float(np.abs(spect).max()), 1e-300)
@@ -683,6 +760,8 @@ def _ineq_body(ctx, case, atol, default_settings):
         out = np.array(C.calc_proj_ineq_constraint_with_var(c, v1, on_para_eq_constraint=flag), dtype=np.float64)
         if not np.array_equal(v1, var0):
             ctx.violation("ineq", name + ".calc_proj_ineq_constraint_with_var", "mutates-argument", "var modified in place (flag %s) (%s)" % (flag, bucket), case)
+        check_result_history(ctx, "ineq", name + ".calc_proj_ineq_constraint_with_var", lambda v: C.calc_proj_ineq_constraint_with_var(c, v, on_para_eq_constraint=flag),
+                             var0, out, False, "calc_proj_ineq_constraint_with_var(flag %s)" % flag, case)
         check_layouts(ctx, "ineq", name + ".calc_proj_ineq_constraint_with_var", lambda v: C.calc_proj_ineq_constraint_with_var(c, v, on_para_eq_constraint=flag),
                       var0, out, "calc_proj_ineq_constraint_with_var(flag %s)" % flag, case)
         pv = np.array(p.to_var(), dtype=np.float64)
@@ -894,6 +973,21 @@ def chk_closures(ctx, case):
                 if a.shape != b.shape or not np.array_equal(a, b):
                     ctx.violation("closures", name + ".calc_proj_%s_constraint" % what, "depends-on-object-configuration",
                                   "the %s projection of an object with non-default is_estimation_object / on_algo_* / mode_proj_order / eps_proj_physical differs by %.3e from that of the default-configured object with the same parameters (flag %s, %s/%s)" % (what, maxabs(a, b), eff, T, case["sys"]), case)
+            # an object obtained by another route (copy()) projects to the same point
+            for what in ("eq", "ineq"):
+                a = stacked(getattr(o_def, "calc_proj_%s_constraint" % what)()); b = stacked(getattr(o_def.copy(), "calc_proj_%s_constraint" % what)())
+                if a.shape != b.shape or not np.array_equal(a, b):
+                    ctx.violation("closures", name + ".calc_proj_%s_constraint" % what, "depends-on-construction-route",
+                                  "the %s projection of obj.copy() differs by %.3e from that of obj (flag %s, %s/%s)" % (what, maxabs(a, b), eff, T, case["sys"]), case)
+        # an EQUAL but not identical CompositeSystem instance handed to the static functions gives the same point
+        c2 = get_sys(case["sys"] + "#2")
+        for eff in (True, False):
+            v = ref[eff]["var"]
+            for what, fn, want in (("eq", C.calc_proj_eq_constraint_with_var, ref[eff]["st_eq"]), ("ineq", C.calc_proj_ineq_constraint_with_var, ref[eff]["st_in"])):
+                got = np.array(fn(c2, v.copy(), on_para_eq_constraint=eff), dtype=np.float64)
+                if got.shape != want.shape or not np.array_equal(got, want):
+                    ctx.violation("closures", name + ".calc_proj_%s_constraint_with_var" % what, "depends-on-composite-system-identity",
+                                  "with an equal but not identical CompositeSystem the result differs by %.3e (flag %s, %s/%s)" % (maxabs(got, want), eff, T, case["sys"]), case)
         # the static variable-level functions called WITHOUT the keyword use the documented default parametrisation (True)
         vT = ref[True]["var"]
         for what, fn, want in (("eq", C.calc_proj_eq_constraint_with_var, ref[True]["st_eq"]), ("ineq", C.calc_proj_ineq_constraint_with_var, ref[True]["st_in"])):
